@@ -123,3 +123,70 @@ func (w *world) doEndSessionForged(s S, p []string, router, host int, do doFn, r
 	}
 	return engine.OK(rule, out), eff, "end_session", in
 }
+
+// honouredAt presents tk (in the way its kind is meant to be used) at userinfo, at introspection by the
+// in-audience resource server and as exchange subject; returns the endpoints that honour it.
+func (w *world) honouredAt(s S, tk *tok, do doFn, resp **rig.Resp) []string {
+	saved := *resp
+	defer func() { *resp = saved }()
+	str := w.str(s, tk)
+	var where []string
+	do("GET", "/userinfo", nil, map[string]string{"Authorization": "Bearer " + str})
+	if rp := *resp; rp.Panic == "" && rp.Status/100 == 2 && len(rp.JSON()) > 0 {
+		where = append(where, "userinfo")
+	}
+	do("POST", "/oauth/introspect", url.Values{"token": {str}}, map[string]string{"Authorization": rig.Basic("api", secretOf("api"))})
+	if rp := *resp; rp.Panic == "" && rp.Status == 200 && rp.JSON()["active"] == true {
+		where = append(where, "introspection")
+	}
+	tt := "access_token"
+	if tk.genuine == genRT {
+		tt = "refresh_token"
+	}
+	do("POST", "/oauth/token", url.Values{"grant_type": {teGrant}, "subject_token": {str},
+		"subject_token_type":   {"urn:ietf:params:oauth:token-type:" + tt},
+		"requested_token_type": {"urn:ietf:params:oauth:token-type:access_token"}},
+		map[string]string{"Authorization": rig.Basic("web", secretOf("web"))})
+	if rp := *resp; rp.Panic == "" && rp.Status == 200 && rp.Str("access_token") != "" {
+		where = append(where, "token exchange")
+	}
+	return where
+}
+
+// doUseKillUse: on ONE provider object (built for this transition) the token is presented at userinfo, introspection
+// and token exchange, then the owner revokes it (or ends its session with the id token), then it is presented again.
+// "From then on" unusable: what the provider object remembers from honouring the token must not keep it alive.
+func (w *world) doUseKillUse(s S, p []string, router, host int, do doFn, resp **rig.Resp) (engine.Result, effect, string, string) {
+	tk := w.byName[p[2]]
+	own := w.owner(tk)
+	before := w.honouredAt(s, tk, do, resp)
+	var res engine.Result
+	var eff effect
+	var kind, what string
+	switch p[3] {
+	case "revoke":
+		res, eff, kind, _ = w.doRevoke(s, []string{"rv", p[1], p[2], "owner", "none"}, router, host, do, resp)
+		what = "revoke-owner-ineffective"
+	default:
+		res, eff, kind, _ = w.doEndSession(s, []string{"es", p[1], own.name, "hint"}, router, host, do, resp)
+		what = "logout-ineffective"
+	}
+	in := group(tk) + "-after-use"
+	if res.Sig != "" {
+		return res, eff, kind, in
+	}
+	killed := (p[3] == "revoke" && res.Outcome == "ok") || (p[3] == "logout" && res.Outcome == "redirect" && res.Rule == "logout-valid-hint")
+	rule := "use-" + p[3] + "-use"
+	if !killed {
+		return engine.OK(rule, "not-killed-"+res.Outcome), eff, kind, in
+	}
+	out := "unusable-afterwards"
+	if len(before) == 0 {
+		out = "never-usable"
+	}
+	if after := w.honouredAt(s, tk, do, resp); len(after) > 0 {
+		return engine.Bad(rule, "usable-afterwards", fmt.Sprintf("C08/%s/%s/%s", what, routerName(router), in),
+			fmt.Sprintf("%s honoured at %v, then %s by %s answered %d, then still honoured at %v on the same provider", tk.name, before, p[3], own.client, (*resp).Status, after)), eff, kind, in
+	}
+	return engine.OK(rule, out), eff, kind, in
+}
